@@ -198,6 +198,7 @@ func (d *dataGraph) get(t, id string) *entity {
 type execErr struct {
 	Msg  string
 	Path []interface{}
+	Ext  string // `,"extensions":{...}` or empty
 }
 
 type execCtx struct {
